@@ -4,7 +4,7 @@ PROPS = {}
 SOURCE_COMMITS = []   # hook commits in /repo (none: contracts live in /verif); fix: commits are listed in known_findings.txt
 # properties not (yet) claimed, with the reason that goes to MANIFEST.not_applicable
 UNCLAIMED = {p: "no check is registered for this property yet (contracts planned in DESIGN.md section 4 are not built); nothing is claimed"
-             for p in ("C02", "C03", "C05", "C06", "C09", "C10", "C11", "C12", "C14", "C15", "C18", "C19")}
+             for p in ("C02", "C03", "C05", "C06", "C09", "C11", "C12", "C14", "C15", "C18", "C19")}
 
 
 def J(**kw):
@@ -230,3 +230,34 @@ J(name="c17.iterInitPolygon", props=["C17", "C15"], harness="c17.c", entry="h_it
 
 J(name="c17.iterInitParent.frame", props=["C17"], harness="c17.c", entry="h_iterInitParent_frame",
   enforce=["_iterInitParent/_iterInitParent_frame"], unwind=17, alloc=True)
+
+# ------------------------------------------------------------------ C10
+PROPS["C10"] = dict(
+    level="proof",
+    explanation="index algebra of directed edges by enforced contracts for all 2^64 inputs: isValidDirectedEdge <=> (mode 2, direction 1..6, "
+                "valid origin, not direction 1 on a pentagon); origin/destination decoding; originToDirectedEdges slot by slot; "
+                "cellsToDirectedEdge succeeds exactly with a direction whose neighbour step yields the destination (the step itself is an "
+                "uninterpreted deterministic function here); the round trip is a lemma composed from the contracts",
+    trusted_base=["the single neighbour step h3NeighborRotations is abstracted as an uninterpreted deterministic function of (origin, direction); "
+                  "its concrete behaviour belongs to C05"],
+    not_decided=["that a direction is found exactly for geometrically adjacent cells (C05's neighbour relation)",
+                 "directedEdgeToBoundary returns the shared boundary stretch; edgeLengthRads/Km/M value (spherical geometry)"],
+    assumptions=[],
+    level_text="Unbounded proof of the index-algebra clauses (all 2^64 candidate edge indexes, all (origin, destination) pairs) on the real "
+               "functions; geometry clauses are not decidable with this technique and are named in clauses_not_decided.",
+    level_note="h3NeighborRotations is replaced by an uninterpreted-function contract (determinism only). Trusts CBMC/DFCC/CaDiCaL.")
+J(name="c10.isValidDirectedEdge", props=["C10", "C12", "C18"], harness="c10.c", entry="h_isValidDirectedEdge",
+  enforce=["isValidDirectedEdge"], replace=["isValidCell", "isPentagon"], replay=dict(fn="isValidDirectedEdge", args=["edge"]))
+J(name="c10.getDirectedEdgeOrigin", props=["C10", "C12", "C18"], harness="c10.c", entry="h_getDirectedEdgeOrigin",
+  enforce=["getDirectedEdgeOrigin"], replay=dict(fn="getDirectedEdgeOrigin", args=["edge"]))
+J(name="c10.getDirectedEdgeDestination", props=["C10", "C12", "C18"], harness="c10.c", entry="h_getDirectedEdgeDestination",
+  enforce=["getDirectedEdgeDestination"], replace=["h3NeighborRotations/h3NeighborRotations_uf"])
+J(name="c10.directedEdgeToCells", props=["C10", "C12", "C18"], harness="c10.c", entry="h_directedEdgeToCells",
+  enforce=["directedEdgeToCells"], replace=["h3NeighborRotations/h3NeighborRotations_uf"])
+J(name="c10.originToDirectedEdges", props=["C10", "C12", "C18"], harness="c10.c", entry="h_originToDirectedEdges",
+  enforce=["originToDirectedEdges"], replace=["isPentagon"], unwind=8, replay=dict(fn="originToDirectedEdges", args=["origin"]))
+J(name="c10.cellsToDirectedEdge", props=["C10", "C12", "C18"], harness="c10.c", entry="h_cellsToDirectedEdge",
+  enforce=["cellsToDirectedEdge"], replace=["h3NeighborRotations/h3NeighborRotations_uf", "isPentagon"], unwind=8,
+  replay=dict(fn="cellsToDirectedEdge", args=["origin", "destination"]))
+J(name="c10.roundtrip", props=["C10"], harness="c10.c", entry="h_edge_roundtrip",
+  replace=["cellsToDirectedEdge", "isValidDirectedEdge", "getDirectedEdgeOrigin", "getDirectedEdgeDestination"])
